@@ -288,6 +288,7 @@ type backend struct {
 	dataStarted        chan struct{}
 	lastConn           atomic.Pointer[smtp.Conn]
 	nsDelayMs          atomic.Int64 // sched probe: NewSession takes this long (so that a Close can arrive while it runs)
+	onLogout           func()       // lateserve probe: what the backend does inside Logout (it ends the server)
 	logoutDelayMs      atomic.Int64 // sched probe: Logout takes this long (so that overlapping Close calls really overlap)
 }
 
@@ -379,6 +380,9 @@ func (s *session) Logout() error {
 	s.b.log.add(fmt.Sprintf("LO:%d", s.id))
 	if d := s.b.logoutDelayMs.Load(); d > 0 {
 		time.Sleep(time.Duration(d) * time.Millisecond)
+	}
+	if f := s.b.onLogout; f != nil {
+		f()
 	}
 	return nil
 }
@@ -703,7 +707,7 @@ func probeConv(f []string) string {
 		conn.inEnd = in[1]
 		close(peerDone)
 	}
-	smtp.VerifPoint = func(name string) {
+	setVerifPoint(func(name string) {
 		if name == "bdat-spawned" {
 			// the delivery goroutine has been started: wait until it has entered the backend, so
 			// that decisions and record numbers are handed out in spawn order
@@ -713,7 +717,7 @@ func probeConv(f []string) string {
 				log.add("HANG-SPAWN")
 			}
 		}
-	}
+	})
 	done := make(chan struct{})
 	go func() {
 		defer close(done)
@@ -749,7 +753,7 @@ func probeConv(f []string) string {
 		conn.end("eof")
 		conn.Close()
 	}
-	smtp.VerifPoint = nil
+	setVerifPoint(nil)
 	// a chunked delivery's panic is logged by its own goroutine after the callback has returned
 	for i := 0; i < 3000 && int64(strings.Count(log.String(), "PANIC")) < panicsRaised.Load(); i++ {
 		time.Sleep(time.Millisecond)
